@@ -66,7 +66,8 @@ process:
 	atomic.StoreUint32(&m.status, idle)
 	user := atomic.LoadInt32(&m.num)
 	system := atomic.LoadInt32(&m.systemNum)
-	if user > 0 || system > 0 {
+	// 暂停期间普通消息不可处理，不应因其存在而重试（否则会空转），Resume 会负责重新唤醒
+	if system > 0 || (user > 0 && atomic.LoadUint32(&m.paused) == 0) {
 		if atomic.CompareAndSwapUint32(&m.status, idle, processing) {
 			goto process
 		}
